@@ -405,5 +405,52 @@ func runC08(s *kernel.Sim, _ string) {
 		}
 	})
 	r.wait()
+	if s.Failed() != nil {
+		return
+	}
+
+	// A query the handler leaves unanswered: the transports that must end the
+	// exchange with something (DoQ, DNSCrypt) send an error of their own, and
+	// a query with an OPT record gets one back there too.
+	r.spawn("c08-unanswered", func(tk *task) {
+		m := &dns.Msg{}
+		m.Id = 900
+		m.Question = []dns.Question{{Name: "nowrite.size.test.", Qtype: dns.TypeA, Qclass: dns.ClassINET}}
+		size := kernel.Pick(t, []uint16{1232, 4096, 512}, "unanswered-udp-size")
+		m.SetEdns0(size, false)
+		raw, _ := m.Pack()
+		q := c08Query{raw: raw, msg: m, hasOPT: true, udpSize: size}
+		ip := clientIP(41)
+
+		judge := func(tr string, body []byte) {
+			resp := &dns.Msg{}
+			if err := resp.Unpack(body); err != nil {
+				tk.Failf("C08/undecodable", tr+": response does not decode", "%v", err)
+
+				return
+			}
+			opt := resp.IsEdns0()
+			if opt == nil || opt.UDPSize() != q.udpSize || opt.Version() != 0 {
+				tk.Failf("C08/opt-missing", tr+": the server's own error response to a query with OPT carries no matching OPT",
+					"%s: rcode %d, opt %v (client advertised %d)", tr, resp.Rcode, opt, q.udpSize)
+			}
+		}
+
+		if out := rawDoQ(n, addrDoQ, ip, [][]byte{raw}); out[0] != nil {
+			judge("doq", out[0])
+			tk.Probe("doq-own-error-response")
+		}
+		if tk.Failed() {
+			return
+		}
+		dc := newDCClient(sv.dcCert, 77)
+		if fr := rawUDP(n, addrDC, ip, dc.seal(raw)); len(fr) == 1 {
+			if plain, derr := dc.open(fr[0]); derr == nil {
+				judge("dnscrypt-udp", plain)
+				tk.Probe("dnscrypt-own-error-response")
+			}
+		}
+	})
+	r.wait()
 	s.MarkNontrivial()
 }
